@@ -1,0 +1,26 @@
+//go:build verif
+
+// Contracts of package nut05 for the govc verifier (/verif). Comment-only file,
+// compiled only with the build tag `verif`.
+package nut05
+
+// NUT-05 melt quote states on the wire are the strings UNPAID / PENDING / PAID.
+//@ macro statestr(st) = (st == Unpaid ? "UNPAID" : (st == Pending ? "PENDING" : (st == Paid ? "PAID" : "unknown")))
+
+//@ func (State).String
+//@   tags C20
+//@   safety C06 C20
+//@   ensures @wire [C20] result == statestr(state)
+
+//@ func StringToState
+//@   tags C20
+//@   safety C06 C20
+//@   ensures @wire [C20] (state == "UNPAID" ==> result == Unpaid) && (state == "PENDING" ==> result == Pending) && (state == "PAID" ==> result == Paid)
+//@   ensures @inverse [C20] result != Unknown ==> statestr(result) == state
+//@   ensures @unknown [C20] state != "UNPAID" && state != "PENDING" && state != "PAID" ==> result == Unknown
+
+//@ struct tempQuote [C20] Quote Request Amount Unit FeeReserve State Expiry Preimage Change
+//@ func (*PostMeltQuoteBolt11Response).MarshalJSON
+//@   tags C20
+//@   safety C06 C20
+//@   calls json.Marshal asserts @wire [C20] typeis(v, tempQuote) && unbox(v, tempQuote).State == statestr(quoteResponse.State) && unbox(v, tempQuote).Quote == quoteResponse.Quote && unbox(v, tempQuote).Request == quoteResponse.Request && unbox(v, tempQuote).Amount == quoteResponse.Amount && unbox(v, tempQuote).Unit == quoteResponse.Unit && unbox(v, tempQuote).FeeReserve == quoteResponse.FeeReserve && unbox(v, tempQuote).Expiry == quoteResponse.Expiry && unbox(v, tempQuote).Preimage == quoteResponse.Preimage && unbox(v, tempQuote).Change == quoteResponse.Change
